@@ -360,3 +360,39 @@ Proof.
   destruct (c_loop bn nbin s 0 (-1) (nbin + 1) (zeros nbin) (zeros (Z.of_nat (length s) + nbin + 1))) as [[[b oe] h] r].
   reflexivity.
 Qed.
+
+(* ---------------------------------------------------------------- the Binner object: history independence *)
+Lemma histogram_with_argsort eng x lo hi m : histogram_with eng (argsort x) x lo hi m = histogram eng x lo hi m.
+Proof. reflexivity. Qed.
+
+Definition binner_wf (b : binner) : Prop := b_sort b = None \/ b_sort b = Some (argsort (b_x b)).
+
+Lemma dohist_spec eng a b lo hi k nb : binner_wf b ->
+  let '(b', r) := dohist eng a b lo hi k nb in
+  binner_wf b' /\ b_x b' = b_x b /\ b_sort b' = Some (argsort (b_x b))
+  /\ r = histogram_api eng a (b_x b) lo hi k nb.
+Proof.
+  intros W. unfold dohist.
+  assert (E : match b_sort b with Some s => s | None => argsort (b_x b) end = argsort (b_x b)).
+  { destruct W as [W|W]; rewrite W; reflexivity. }
+  rewrite E. cbn [b_x b_sort]. split; [right; reflexivity|]. split; [reflexivity|]. split; [reflexivity|].
+  unfold histogram_api. destruct (resolve a k nb); reflexivity.
+Qed.
+
+Lemma run_binner_spec cs : forall b, binner_wf b ->
+  run_binner b cs = map (fun c => histogram_api (c_eng c) ApiBinner (b_x b) (c_lo c) (c_hi c) (c_kw c) (c_nbin c)) cs.
+Proof.
+  induction cs as [|c t IH]; intros b W; cbn [run_binner map]; [reflexivity|].
+  pose proof (dohist_spec (c_eng c) ApiBinner b (c_lo c) (c_hi c) (c_kw c) (c_nbin c) W) as S.
+  destruct (dohist (c_eng c) ApiBinner b (c_lo c) (c_hi c) (c_kw c) (c_nbin c)) as [b' r].
+  destruct S as (W' & Ex & _ & Er). rewrite Er, (IH b' W'), Ex. reflexivity.
+Qed.
+
+Lemma histogram_call_spec x c :
+  histogram_call x c = histogram_api (c_eng c) ApiHistogram x (c_lo c) (c_hi c) (c_kw c) (c_nbin c).
+Proof.
+  unfold histogram_call.
+  pose proof (dohist_spec (c_eng c) ApiHistogram (binner_new x) (c_lo c) (c_hi c) (c_kw c) (c_nbin c) (or_introl eq_refl)) as S.
+  destruct (dohist (c_eng c) ApiHistogram (binner_new x) (c_lo c) (c_hi c) (c_kw c) (c_nbin c)) as [b' r].
+  destruct S as (_ & _ & _ & Er). exact Er.
+Qed.
